@@ -358,10 +358,11 @@ class Schema(dict, metaclass=LogicalMeta):
                 )
             context = self.__parser__.make_context(force_error=True)
             addition = self.__parser__.parse_addition(alias, value, context=context)
+            context.raise_error()
             if unprovided(addition):
                 # ignore addition
                 return
-            return super().__setitem__(alias, value)
+            return super().__setitem__(alias, addition)
 
         return self.__field_setter__(value, field=field)
 
